@@ -3,7 +3,7 @@
 import ast
 
 from ..core.analysis import Analysis, assigned_names, facts
-from ..core.astutil import const_value, method_calls
+from ..core.astutil import deref, const_value, method_calls
 from ..core.cfg import decompose_guard
 from ..core.pyrepo import Repo, calls_in, dotted, norm_stmt
 
@@ -159,14 +159,18 @@ def _r1(ctx, repo, A):
                 writes.append((fi, st))
     bad = [f"{fi.qual}: {norm_stmt(st)}" for fi, st in writes
            if not (fi.qual == "Process._init" and dotted(st.value) == "_SENTINEL")
-           and not (fi.qual == "Process.wait" and st.value in inner)]
-    rets = [n for n in cfg.nodes if n.kind == "return"
-            and dotted(n.stmt.value) == "self._exitcode"]
+           and not (fi.qual == "Process.wait" and (
+               st.value in inner or norm_stmt(deref(fi.node, st.value)) in
+               {norm_stmt(x) for x in inner}))]
+    rets = [n for n in cfg.nodes if n.kind == "return" and n.stmt.value is not None
+            and norm_stmt(deref(w.node, n.stmt.value)) == "self._exitcode"]
     cached = False
     for n in rets:
         for e, pol, _ in cfg.guards(n):
-            if pol is True and norm_stmt(e).replace(" ", "") == "self._exitcodeisnot_SENTINEL":
-                cached = True
+            for a_, t_ in decompose_guard(e, pol):
+                if t_ is True and norm_stmt(deref(w.node, a_)).replace(" ", "") == \
+                        "self._exitcodeisnot_SENTINEL":
+                    cached = True
     if bad or not cached:
         ctx.fail("C15.R1", "wait:exitcode-memo", w.file, w.node.lineno, w.qual,
                  ("the cached exit code is written elsewhere: " + "; ".join(bad)) if bad
@@ -327,12 +331,44 @@ def _r3(ctx, repo, A, wp, sl):
                     and dotted(n.stmt.exc.func) == "TimeoutExpired":
                 raises.append((f, cfg, n))
     ctx.require(raises, "wait_pid: `raise TimeoutExpired` vanished")
+    import copy as _copy
+
+    class _Past(ast.NodeTransformer):
+        """deadline comparisons -> the boolean `__past__` (deadline reached)"""
+        def visit_Compare(self, c):
+            if _is_deadline_test(c, True, D, X):
+                return ast.copy_location(ast.Name("__past__", ast.Load()), c)
+            if _is_deadline_test(c, False, D, X):
+                return ast.copy_location(ast.UnaryOp(ast.Not(), ast.Name("__past__", ast.Load())), c)
+            return self.generic_visit(c)
+
+    def taken(expr, pol, tv, past):
+        """is the branch (expr, pol) taken for timeout=tv, deadline reached=past?
+        None when the test does not depend on them / cannot be evaluated."""
+        e2 = _Past().visit(_copy.deepcopy(expr))
+        names_ = {x.id for x in ast.walk(e2) if isinstance(x, ast.Name)}
+        if not ({"__past__", tparam} & names_):
+            return None
+        v = eval_pred(e2, {tparam: tv, "__past__": past})
+        if v not in (True, False):
+            return None
+        return v is pol
     for f, cfg, n in raises:
-        dl = False
-        for e, pol, _ in cfg.guards(n):
-            for a, t in decompose_guard(e, pol):
-                if _is_deadline_test(a, t, D, X):
-                    dl = True
+        # the raise is reachable only with a timeout whose deadline has been reached
+        dl = True
+        decided = False
+        for tv, past in ((None, False), (None, True), (5, False), (5, True)):
+            r_ = True
+            for e, pol, _ in cfg.guards(n):
+                tk = taken(e, pol, tv, past)
+                if tk is None:
+                    continue
+                decided = True
+                if not tk:
+                    r_ = False
+            if r_ and not (tv is not None and past):
+                dl = False
+        dl = dl and decided
         call = n.stmt.exc
         a0 = dotted(call.args[0]) if call.args else None
         kws = {k.arg: dotted(k.value) for k in call.keywords}
@@ -348,27 +384,18 @@ def _r3(ctx, repo, A, wp, sl):
     for f, c in sleeps:
         cfg = A.cfg(f)
         for n in cfg.owners(c):
-            tests = [t for t in cfg.nodes if t.kind == "test"
-                     and (_is_deadline_test(t.expr, True, D, X)
-                          or _is_deadline_test(t.expr, False, D, X))]
-            none_br = []
+            # branches that can only be taken when there is no timeout or the
+            # deadline has not been reached
+            safe = []
             for b in cfg.nodes:
-                if b.kind == "branch" and b.polarity in (True, False):
-                    for a, t in decompose_guard(b.expr, b.polarity):
-                        from ..core.analysis import norm_fact
-                        if norm_fact(a, t) == ("isnone", tparam, True):
-                            none_br.append(b)
-            # every path from the entry to the sleep either established
-            # `timeout is None` or evaluated the deadline test
-            good = bool(tests) and not cfg.path_exists(
-                cfg.entry, n, avoid=set(tests) | set(none_br))
-            # when the deadline test is true the sleep must not be reachable
-            for t in tests:
-                tb = [s for s, lab in t.succ
-                      if (lab == "T") == _is_deadline_test(t.expr, True, D, X)]
-                for b in tb:
-                    if n in cfg.reachable(b):
-                        good = False
+                if b.kind != "branch" or b.polarity not in (True, False):
+                    continue
+                t_past = taken(b.expr, b.polarity, 5, True)
+                t_ok = [taken(b.expr, b.polarity, tv, past)
+                        for tv, past in ((None, False), (None, True), (5, False))]
+                if t_past is False and any(x for x in t_ok):
+                    safe.append(b)
+            good = bool(safe) and not cfg.path_exists(cfg.entry, n, avoid=set(safe))
             if good:
                 ctx.ok("C15.R3", f"sleep:{f.qual}", sample="every path with a timeout "
                        f"passes `{X} >= {D}` (false) before sleeping")
@@ -598,35 +625,69 @@ def _r6(ctx, repo, A):
     if not (setrc and adds and cbs and waits):
         probs.append("returncode assignment / gone.add / callback / proc.wait vanished")
     else:
-        # same control region: identical guard set modulo the callback None-test
-        def region(n):
-            return [(norm_stmt(e), p) for e, p, _ in ccfg.guards(n)
-                    if "callback" not in norm_stmt(e)]
-        if not (region(setrc[0]) == region(adds[0]) == region(cbs[0])):
-            probs.append("returncode / gone.add / callback are not in one branch")
-        if not any("callback is not None" == norm_stmt(e) and p is True
-                   for e, p, _ in ccfg.guards(cbs[0])):
-            probs.append("callback called without the `callback is not None` test")
-        # only in the else: of the try around proc.wait (no TimeoutExpired)
-        t = [x for x in ast.walk(cg.node) if isinstance(x, ast.Try)
-             and any(waits[0] in list(ast.walk(b)) for b in x.body)]
-        if not t or not any(setrc[0].stmt in list(ast.walk(s)) for s in t[0].orelse):
-            probs.append("gone bookkeeping is not confined to the no-timeout path")
-        elif not any("TimeoutExpired" in norm_stmt(h.type or ast.Constant(0))
-                     for h in t[0].handlers):
-            probs.append("TimeoutExpired from proc.wait() is no longer absorbed")
-        # returncode value is wait()'s result and gone requires rc or not running
+        # decided on what each bookkeeping statement's guards evaluate to, not on
+        # how they are spelled: with rc = wait()'s result and R = proc.is_running(),
+        # all three happen iff (rc is not None or not R) [callback: and callback
+        # is not None]; none of them is reachable from the TimeoutExpired handler
         rcname = None
         for st in ast.walk(cg.node):
             if isinstance(st, ast.Assign) and st.value in waits:
                 rcname = dotted(st.targets[0])
+        cbname = "callback"
+
+        class _Sub(ast.NodeTransformer):
+            def visit_Call(self, n):
+                if isinstance(n.func, ast.Attribute) and n.func.attr == "is_running":
+                    return ast.copy_location(ast.Name("__running__", ast.Load()), n)
+                return self.generic_visit(n)
+
+        def reach(node, rc, running, cb):
+            import copy
+            ok_ = True
+            for e, pol, _ in ccfg.guards(node):
+                v = eval_pred(_Sub().visit(copy.deepcopy(e)),
+                              {rcname or "returncode": rc, "__running__": running, cbname: cb})
+                if v in (True, False):
+                    if v is not pol:
+                        ok_ = False
+                else:
+                    return None
+            return ok_
         if rcname is None or dotted(setrc[0].stmt.value) != rcname:
             probs.append("proc.returncode is not wait()'s result")
-        gtxt = [norm_stmt(e).replace(" ", "") for e, p, _ in ccfg.guards(adds[0]) if p is True]
-        if not any(rcname and f"{rcname}isnotNone" in g and "notproc.is_running()" in g
-                   for g in gtxt):
-            probs.append("a process is declared gone without `returncode is not None or "
-                         "not proc.is_running()`")
+        else:
+            for nm_, nd in (("proc.returncode = rc", setrc[0]), ("gone.add(proc)", adds[0]),
+                            ("callback(proc)", cbs[0])):
+                for rc in (None, 0, 1, -9):
+                    for running in (True, False):
+                        for cb in (None, "f"):
+                            want = (rc is not None or not running) and \
+                                (cb is not None or nd is not cbs[0])
+                            got = reach(nd, rc, running, cb)
+                            if got is None:
+                                probs.append(f"the guard of `{nm_}` is outside the evaluated subset")
+                            elif got is not want:
+                                probs.append(
+                                    f"`{nm_}` {'happens' if got else 'does not happen'} for "
+                                    f"wait() -> {rc!r}, is_running() -> {running}"
+                                    + (", callback given" if cb else "")
+                                    + ": a process is gone iff wait() gave an exit status or "
+                                      "it is no longer running")
+            # TimeoutExpired from wait() is absorbed and leads to no bookkeeping
+            t = [x for x in ast.walk(cg.node) if isinstance(x, ast.Try)
+                 and any(waits[0] in list(ast.walk(b)) for b in x.body)]
+            hs = [h for x in t for h in x.handlers
+                  if "TimeoutExpired" in norm_stmt(h.type or ast.Constant(0))]
+            if not hs:
+                probs.append("TimeoutExpired from proc.wait() is no longer absorbed")
+            else:
+                for h in hs:
+                    hnodes = [n for b in h.body for n in ccfg.nodes_of(b)]
+                    for nd in (setrc[0], adds[0], cbs[0]):
+                        if any(ccfg.path_exists(hn, nd) or hn is nd for hn in hnodes):
+                            probs.append("gone bookkeeping is reachable after a TimeoutExpired "
+                                         "(the process did not end)")
+        probs = sorted(set(probs))[:4]
         # the per-process timeout reaches wait()
         if not (waits[0].keywords and dotted(waits[0].keywords[0].value) == "timeout") \
                 and not (waits[0].args and dotted(waits[0].args[0]) == "timeout"):
